@@ -113,7 +113,7 @@ CHECKS.update({
          'failing coroutines, data-less events, short and long mode names) run on the real block under the virtual-time loop; put / output / coroutine start / end / result / stop lines are '
          'validated by the monitor: exactly one result with the original data, mode rules at every start and cancellation, output +1/-1 bracketing each run with the release exactly guard_time '
          'after the coroutine ended, completion within stop_timeout, nothing left.',
-         TRUSTED + '; run durations and guard times are multiples of 0.25 s; InExecutor (threads) is not exercised; stop_timeout is chosen large enough for the pending work', '6 C12'),
+         TRUSTED + '; run durations and guard times are multiples of 0.25 s; InExecutor (threads) is not exercised; the operational model assumes a stop_timeout large enough for the pending work; the monitor also covers short time-outs (stop bounded by stop_timeout + guard_time), where a genuine defect of OutputAsync is recorded as a known finding (known_findings.json, DESIGN.md section 7)', '6 C12'),
 })
 CHECKS.update({
  'C08': (MC, 'TLC model checking of Lifecycle.tla via MC_Lifecycle (run_forever at await-point granularity: start loop, yield, async init, sync init, simulate, caught, consume, async and sync clean-up; abort / cancellation at every step; all compositions of 2 (thorough: 3) blocks x one fault site) + sharpness self-test (init tasks not cancelled) + random compositions x fault sites x termination causes run on the real simulator, batch trace validation against the monitor LifecycleTrace.tla',
